@@ -20,9 +20,9 @@ def MTbl.liftN (t : MTbl) (σ : String → Nat) : MAsg := fun i =>
 /-- every level has a variable (`var_at_level` never raises `KeyError`) -/
 def MTbl.Named (t : MTbl) : Prop := ∀ i, i < t.nvars → (t.varAt? i).isSome
 
-theorem mem_idxOf (kids : List Int) (x : Int) (j : Nat) :
-    (idxOf kids x).contains j = true ↔ kids[j]? = some x := by
-  unfold idxOf
+theorem mem_mIdxOf (kids : List Int) (x : Int) (j : Nat) :
+    (mIdxOf kids x).contains j = true ↔ kids[j]? = some x := by
+  unfold mIdxOf
   simp only [List.contains_eq_mem, List.mem_filter, List.mem_range, beq_iff_eq, decide_eq_true_eq]
   constructor
   · rintro ⟨_, h⟩; exact h
@@ -53,10 +53,10 @@ theorem mChain_eval_none (var : String) (kids : List Int) (σ : String → Nat)
   | cons b bs ih =>
     obtain ⟨x, e⟩ := b
     rw [mChain, MExpr.eval]
-    have : (idxOf kids x).contains (σ var) = false := by
-      cases hc : (idxOf kids x).contains (σ var) with
+    have : (mIdxOf kids x).contains (σ var) = false := by
+      cases hc : (mIdxOf kids x).contains (σ var) with
       | false => rfl
-      | true => rw [mem_idxOf, hj] at hc; cases hc
+      | true => rw [mem_mIdxOf, hj] at hc; cases hc
     rw [this]
     simpa using ih
 
@@ -73,14 +73,14 @@ theorem mChain_eval_some (var : String) (kids : List Int) (σ : String → Nat) 
     rw [List.map_cons, mChain, MExpr.eval]
     by_cases hxk : x = k
     · subst hxk
-      have : (idxOf kids x).contains (σ var) = true := (mem_idxOf kids x _).mpr hj
+      have : (mIdxOf kids x).contains (σ var) = true := (mem_mIdxOf kids x _).mpr hj
       rw [this]
       simpa using hE x List.mem_cons_self
-    · have : (idxOf kids x).contains (σ var) = false := by
-        cases hc : (idxOf kids x).contains (σ var) with
+    · have : (mIdxOf kids x).contains (σ var) = false := by
+        cases hc : (mIdxOf kids x).contains (σ var) with
         | false => rfl
         | true =>
-          rw [mem_idxOf, hj] at hc
+          rw [mem_mIdxOf, hj] at hc
           exact absurd (Option.some.inj hc).symm hxk
       rw [this]
       have hk' : k ∈ c := by
